@@ -1163,6 +1163,11 @@ impl<T: Elem + SatisfyTraits<Tr>, M: MemCaps, Tr: ?Sized + TrCaps> DynRig for Ri
             // never read beyond what the backend owns
             return s;
         }
+        if s.len > (1 << 26) {
+            // an absurd length (possible for zero-sized elements, whose capacity is unbounded): do not walk it
+            s.vals.push(Val::Garbage(s.len as u64));
+            return s;
+        }
         match av.downcast_ref::<T>() {
             Some(tv) => {
                 let sl = tv.as_slice();
@@ -1184,7 +1189,7 @@ impl<T: Elem + SatisfyTraits<Tr>, M: MemCaps, Tr: ?Sized + TrCaps> DynRig for Ri
         let av = &self.vecs[v];
         let len = av.len();
         let mut gets = Vec::with_capacity(len + 2);
-        if len > av.capacity() {
+        if len > av.capacity() || len > (1 << 26) {
             return (gets, Vec::new());
         }
         for i in 0..len.saturating_add(2) {
